@@ -83,6 +83,9 @@ def main():
                     caught_by = tier
                     break
             status = "caught" if caught_by else "MISSED"
+            if with_change == 0 and not caught_by:
+                # its own demonstration passes with the change applied: a later repair of /repo made it harmless
+                status = "no-longer-breaking"
             print(f"{name}: prop={prop} pinned={tests} demo(with)={with_change} demo(without)={without} -> {status} ({caught_by}) {klass[:2]}")
             prev[name] = {
                 "id": name,
